@@ -117,6 +117,7 @@ class Builder:
         self.bind = {}           # &str parameters of the current activation bound to a string literal by the caller
         self.assigned = set()
         self.loop_ends = []
+        self.iter_state = {}
         self.last_lit = None
         self._ords = {}
         self.pending = {}        # closure span -> its write template (a closure defined here and handed to a callee)
@@ -341,6 +342,33 @@ class Builder:
                         found = ("some:" + pl.lstrip("*&"), iv["name"])
         return found
 
+    def next_guard(self, x):
+        """name of the iterator local of a two-way `if let Some(..) = it.next()`"""
+        if x[0] != "alt" or len(x[1]) != 2:
+            return None
+        for g, b in x[1]:
+            ge = g.get("e")
+            if g.get("taken") is True and isinstance(ge, dict) and ge.get("k") == "let":
+                pt = ge.get("pat") or {}
+                iv = H.peel_ref(ge.get("init")) if isinstance(ge.get("init"), dict) else None
+                if (pt.get("path") or {}).get("def") == "core::option::Option::Some" and isinstance(iv, dict) and iv.get("k") == "mcall" \
+                        and iv["name"] == "next" and not iv["args"]:
+                    r = H.peel_ref(iv["recv"])
+                    if isinstance(r, dict) and r.get("k") == "local":
+                        return r["name"]
+        return None
+
+    def loop_over(self, y):
+        if y[0] not in ("loop", "star", "star1") or len(y) < 3 or not isinstance(y[2], dict):
+            return None
+        it_e = y[2].get("e")
+        while isinstance(it_e, dict) and it_e.get("k") == "mcall" and it_e["name"] in ("into_iter", "enumerate", "by_ref") and not it_e["args"]:
+            it_e = H.peel_ref(it_e["recv"])
+        it_e = H.peel_ref(it_e) if isinstance(it_e, dict) else None
+        if isinstance(it_e, dict) and it_e.get("k") == "local":
+            return it_e["name"]
+        return None
+
     def fold_depends(self, y, key, fname):
         if y[0] != "loop" or not isinstance(y[2], dict) or y[2].get("kind") != "fold":
             return False
@@ -404,6 +432,14 @@ class Builder:
                     self.build_seq(items[i:], cur, e, fn_end, fname)
                     del self.fixed[g]
                 return
+            nx = self.next_guard(x)
+            if nx is not None and nx not in self.iter_state and any(self.loop_over(y) == nx for y in items[i + 1:]):
+                # `if let Some(x) = it.next() {..}  for x in it {..}`: the loop runs only if the first element existed
+                for val in ("rest",):     # clause lists are taken as non-empty where they are rendered (as for plain loops)
+                    self.iter_state[nx] = val
+                    self.build_seq(items[i:], cur, e, fn_end, fname)
+                    del self.iter_state[nx]
+                return
             sg = self.some_guard(x)
             if sg is not None and sg not in self.fixed and any(self.fold_depends(y, sg, fname) for y in items[i + 1:]):
                 for val in (True, False):
@@ -446,6 +482,7 @@ class Builder:
                 a.add_eps(s, e)
             g = self.corr_guard(S)
             sgk = self.some_guard(S)
+            nxk = self.next_guard(S)
             scrut = None
             specific = set()
 
@@ -476,6 +513,8 @@ class Builder:
                 if g is not None and g in self.fixed and gd["taken"] != self.fixed[g]:
                     continue
                 if sgk is not None and sgk in self.fixed and gd.get("taken") is not None and gd["taken"] != self.fixed[sgk]:
+                    continue
+                if nxk is not None and nxk in self.iter_state and gd.get("taken") is not None and gd["taken"] != (self.iter_state[nxk] == "rest"):
                     continue
                 pt_, sc_ = gd.get("pat"), scrut
                 ge = gd.get("e")
@@ -538,6 +577,12 @@ class Builder:
                 return
             if info.get("kind") == "fold" and self.build_fold_table(S, s, e, fn_end, fname):
                 return
+            lo = self.loop_over(S)
+            if lo is not None and lo in self.iter_state:
+                if self.iter_state[lo] == "empty":
+                    a.add_eps(s, e)
+                    return
+                k = "star"        # the first element was taken with next(): the rest may be empty
             dk = (fname.rsplit("::", 1)[-1], "loop:" + re.sub(r"\s+", " ", info.get("over") or ""))
             if self.domain.get(dk) is False:
                 self.domain_used.add(dk)
